@@ -298,6 +298,10 @@ func (m *MethodMocker) Return(value ...interface{}) *When {
 		when *When
 		err  error
 	)
+	if value == nil {
+		// Return() 不带任何值: 仍然需要检查返回值个数
+		value = []interface{}{}
+	}
 	if when, err = CreateWhen(m, m.methodIns, nil, value, true); err != nil {
 		panic(err)
 	}
@@ -553,6 +557,10 @@ func (m *DefMocker) Return(value ...interface{}) *When {
 		when *When
 		err  error
 	)
+	if value == nil {
+		// Return() 不带任何值: 仍然需要检查返回值个数
+		value = []interface{}{}
+	}
 	if when, err = CreateWhen(m, m.funcDef, nil, value, false); err != nil {
 		panic(err)
 	}
